@@ -102,6 +102,7 @@ class Runner
     {
         bool alive{false};
         std::uintptr_t data_begin{};
+        std::uintptr_t cdata_begin{};  // data_begin() through a const vector, also for empty vectors
         std::size_t cap{}, size{}, memcons{};
         std::vector<std::vector<Extent>> ext;
         std::vector<MElem> values;
@@ -535,7 +536,7 @@ class Runner
     {
         const int s = op.a % NSLOT;
         destroy_slot(s);
-        vs[s].v = new Vec();
+        vs[s].v = new Vec;  // default-initialisation (not value-initialisation): members must initialise themselves
         MVec& m = vs[s].m;
         m = MVec{};
         m.alive = true;
@@ -956,6 +957,12 @@ class Runner
         const auto ve = reinterpret_cast<std::uintptr_t>(v.data_end());
         std::uintptr_t prev_end = vb;
         VF_REQUIRE(reinterpret_cast<std::uintptr_t>(v.begin().data()) == vb, "iterator_data_mismatch", "begin().data() != data_begin()");
+        {
+            const Vec& cv = v;
+            VF_REQUIRE(reinterpret_cast<std::uintptr_t>(cv.data_begin()) == vb && reinterpret_cast<std::uintptr_t>(cv.data_end()) == ve && reinterpret_cast<std::uintptr_t>(cv.data()) == vb &&
+                           reinterpret_cast<std::uintptr_t>(cv.begin().data()) == vb,
+                       "data_const_mismatch", "const and non-const data()/data_begin()/data_end() disagree");
+        }
         bool diff_sizes = false;
         std::size_t first_bytes = 0;
         for (std::size_t i = 0; i < n; ++i)
@@ -1147,6 +1154,7 @@ class Runner
             sn.memcons = v.memory_consumption();
             sn.fixed = vs[s].m.fixed;
             if (sn.size > 0) sn.data_begin = reinterpret_cast<std::uintptr_t>(v.data_begin());
+            sn.cdata_begin = reinterpret_cast<std::uintptr_t>(static_cast<const Vec&>(v).data_begin());
             for (std::size_t i = 0; i < sn.size; ++i)
             {
                 sn.ext.push_back(extents(v[i]));
@@ -1200,6 +1208,8 @@ class Runner
                 VF_REQUIRE(v.capacity() == sn.cap, "capacity_changed", std::string(what) + " changed capacity()");
                 if (sn.size > 0 && v.size() > 0)
                     VF_REQUIRE(reinterpret_cast<std::uintptr_t>(v.data_begin()) == sn.data_begin, "data_begin_changed", std::string(what) + " changed data_begin()");
+                VF_REQUIRE(reinterpret_cast<std::uintptr_t>(static_cast<const Vec&>(v).data_begin()) == sn.cdata_begin, "data_begin_changed", std::string(what) + " changed data_begin() (const)");
+                VF_REQUIRE(static_cast<const Vec&>(v).data_begin() == v.data_begin(), "data_begin_changed", std::string(what) + ": const and non-const data_begin() differ");
             }
             const std::size_t upto = std::min<std::size_t>({stable_upto[s], sn.size, v.size()});
             for (std::size_t i = 0; i < upto; ++i)
@@ -1225,6 +1235,7 @@ class Runner
         auto* db = v.data_begin();
         auto* de = v.data_end();
         VF_REQUIRE(db == de, "empty_data_range", "data_begin() != data_end() on an empty vector (difference " + std::to_string(de - db) + ")");
+        VF_REQUIRE(cv.data_begin() == db && cv.data_end() == de && cv.data() == db && v.data() == db, "empty_data_const_mismatch", "const and non-const data()/data_begin()/data_end() disagree on an empty vector");
         if (db != nullptr)
         {
             const Block* blk = ledger().find_containing(db);
@@ -1554,6 +1565,7 @@ class Runner
         ledger().always_equal_mode = K::ae;
         ledger().on_release = &registry_release_hook;
         registry().reset();
+        g_zero_toggle = prog.junk & 1;
         for (std::size_t i = 0; i < prog.ops.size() && !bad(); ++i)
         {
             cur_op = static_cast<int>(i);
